@@ -609,7 +609,11 @@ class GenFn(Gen):
             c = self.fresh("c")
             body = [("assign", ("var", c), ("int", 0)), ("while", ("bin", "<", ("var", c), ("var", n)), [("opassign", "+", ("var", c), ("int", 1)), ("yield", ("bin", "*", ("var", c), self.expr("int", inner, d + 2)))])]
         else:
-            body = [("try", [y1, ("throw", ("str", ["boom"])), ("yield", ("int", -1))], [(("var", "e"), None, [("yield", self.expr("int", inner, d + 2))])], [("yield", ("int", 99))] if self.chance(0.5) else None)]
+            has_finally = self.chance(0.5)
+            # SG-B1: with a finally block the handler must not be able to fail (a failing handler skips finally: finding F-B1);
+            # an arbitrary int expression can fail through a hinted call or an overflowing index
+            handler_value = ("int", self.rng.randint(-9, 99)) if has_finally else self.expr("int", inner, d + 2)
+            body = [("try", [y1, ("throw", ("str", ["boom"])), ("yield", ("int", -1))], [(("var", "e"), None, [("yield", handler_value)])], [("yield", ("int", 99))] if has_finally else None)]
         node = ("fn", [(("var", n), None)], None, body, True, self.free_names(body, {n, i}), "block")
         sc.vars[name] = Var(name, "gen", protected=True)
         return [("assign", ("var", name), node)]
